@@ -9,6 +9,7 @@ import Driver.Fuzz
 import Driver.Memo
 import Driver.Conc
 import Driver.Text
+import Driver.Hooks
 
 def main (args : List String) : IO UInt32 := do
   match args with
@@ -23,6 +24,7 @@ def main (args : List String) : IO UInt32 := do
   | ["memo"] => Driver.Memo.main; return 0
   | ["conc"] => Driver.Conc.main; return 0
   | ["text"] => Driver.Text.main; return 0
+  | ["hooks"] => Driver.Hooks.main; return 0
   | _ =>
     IO.eprintln "usage: bwdriver <protocol>"
     return 2
